@@ -27,6 +27,9 @@ func (w *lockedWriter) Write(p []byte) (int, error) {
 	return w.b.Write(p)
 }
 
+// obsOpts: in every other round the concurrent callers also ask for the listing, the trace and the statistics, each into its own writer
+var obsOpts bool
+
 func interpOutcome(src []byte, viaFile bool, seed int64) string {
 	var out, lg bytes.Buffer
 	var res []bcl.Block
@@ -38,12 +41,16 @@ func interpOutcome(src []byte, viaFile bool, seed int64) string {
 				err = fmt.Errorf("PANIC %v", r)
 			}
 		}()
+		opts := []bcl.Option{bcl.OptOutput(&out), bcl.OptLogger(&lg)}
+		if obsOpts {
+			opts = append(opts, bcl.OptDisasm(true), bcl.OptTrace(true), bcl.OptStats(true))
+		}
 		if viaFile {
 			r := rand.New(rand.NewSource(seed))
 			f := &scriptedFile{name: "c.bcl", steps: chopped(string(src), 24, r)}
-			res, bind, err = bcl.InterpretFile(f, bcl.OptOutput(&out), bcl.OptLogger(&lg))
+			res, bind, err = bcl.InterpretFile(f, opts...)
 		} else {
-			res, bind, err = bcl.Interpret(src, bcl.OptOutput(&out), bcl.OptLogger(&lg))
+			res, bind, err = bcl.Interpret(src, opts...)
 		}
 	}()
 	return fmt.Sprintf("err=%v out=%q log=%q res=%s bind=%s", err, out.String(), lg.String(), canonBlocks(res), canonBinding(bind))
@@ -58,6 +65,7 @@ func driveConc(args []string) int {
 	g := newProgen(seed)
 	g.failRate = 4
 	for round := 0; round < rounds; round++ {
+		obsOpts = round%2 == 1
 		// different inputs; the concurrent calls are made first (in the first round they are the very first calls of the process:
 		// whatever the library sets up on first use is set up under concurrency), the sequential reference afterwards
 		srcs := make([][]byte, n)
@@ -117,6 +125,11 @@ func driveConc(args []string) int {
 				wg.Add(1)
 				go func(i int) {
 					defer wg.Done()
+					defer func() {
+						if x := recover(); x != nil {
+							gotU[i] = outc{fmt.Sprint("PANIC ", x), ""}
+						}
+					}()
 					gotU[i] = unm(i)
 				}(i)
 			}
@@ -154,6 +167,11 @@ func driveConc(args []string) int {
 			wg.Add(1)
 			go func(i int) {
 				defer wg.Done()
+				defer func() {
+					if x := recover(); x != nil {
+						outs[i] = fmt.Sprint("PANIC ", x) // a panic inside the library under concurrency is an outcome, not the end of the harness
+					}
+				}()
 				r, b, e := bcl.Execute(p)
 				outs[i] = fmt.Sprintf("err=%v res=%s bind=%s", e, canonBlocks(r), canonBinding(b))
 			}(i)
@@ -185,6 +203,11 @@ func driveConc(args []string) int {
 			wg.Add(1)
 			go func(i int) {
 				defer wg.Done()
+				defer func() {
+					if x := recover(); x != nil {
+						outs[i] = fmt.Sprint("PANIC ", x) // a panic inside the library under concurrency is an outcome, not the end of the harness
+					}
+				}()
 				r, b, e := bcl.Execute(p, bcl.OptTrace(true), bcl.OptStats(true))
 				outs[i] = fmt.Sprintf("err=%v res=%s bind=%s", e, canonBlocks(r), canonBinding(b))
 			}(i)
